@@ -1,0 +1,13 @@
+//go:build verif
+
+package helpers
+
+// VerifHook, when set (by a verification harness, before any worker is created), is called at the
+// instrumented points of this package. It exists only under the "verif" build tag.
+var VerifHook func(label string, args ...any)
+
+func vhook(label string, args ...any) {
+	if h := VerifHook; h != nil {
+		h(label, args...)
+	}
+}
